@@ -51,6 +51,15 @@ def gen_overloads(rng):
           "  int get_mode() const;\n  Gauge *set_mode(int m);\n  __make_property(mode, get_mode, set_mode);\n"
           "  %s get_ratio() const;\n  %s set_ratio(%s r);\n  __make_property(ratio, get_ratio, set_ratio);\n};\n"
           % (rng.choice(["double", "float"]), rng.choice(["bool", "int", "double", "const Gauge &", "A *"]), rng.choice(["double", "float"])))
+    # number-protocol slots synthesised by the native back-end (true division has no slot definition of its own) and the
+    # forwarding constructors of Python-subclassable classes (typed + reference counted, defaulted trailing parameters)
+    t += ("class Vec2s {\n__published:\n  Vec2s();\n  Vec2s operator / (float s) const;\n  Vec2s &operator /= (float s);\n"
+          "  Vec2s operator * (%s s) const;\n  Vec2s operator - () const;\n  float get_x() const;\n};\n" % rng.choice(["float", "double"]))
+    t += ("class TypedObject {\n__published:\n  int get_type_index() const;\n};\n"
+          "class ReferenceCount {\n__published:\n  void ref() const;\n  bool unref() const;\n  int get_ref_count() const;\n};\n"
+          "class ScNode : public TypedObject, public ReferenceCount {\n__published:\n  ScNode();\n"
+          "  ScNode(int id, float weight = %s, bool active = %s, int mask = %s);\n  virtual ~ScNode();\n  int get_id() const;\n};\n"
+          % (rng.choice(["1.5f", "0.25f", "2.0f"]), rng.choice(["true", "false"]), rng.choice(["0x10", "7", "(1 << 3)"])))
     return t
 
 
@@ -64,7 +73,10 @@ def conditions(rng, shim_time, shim_comma):
             ("env-padding", {"IGVERIF_PAD": pad, "ANOTHER": pad[:777]}, []),
             ("locale+tz", {"LC_ALL": "C.UTF-8", "LANG": "de_DE.UTF-8", "LC_NUMERIC": "de_DE.UTF-8", "TZ": "Asia/Tokyo"}, []),
             ("comma-decimal-point", {"LD_PRELOAD": str(shim_comma)}, []),
-            ("clock+1h", {"LD_PRELOAD": str(shim_time), "FAKE_TIME": str(1900000000 + rng.randrange(10 ** 6))}, [])]
+            ("clock+1h", {"LD_PRELOAD": str(shim_time), "FAKE_TIME": str(1900000000 + rng.randrange(10 ** 6))}, []),
+            # memcheck: a value that was never initialised and steers a branch or is written out makes the output depend on what the
+            # stack or heap happened to hold, whether or not two runs on this machine differ
+            ("memcheck", {}, ["valgrind", "-q", "--error-exitcode=97"])]
 
 
 def run_tool(cmd, cwd, env, prefix=()):
@@ -111,7 +123,7 @@ def run(ck):
                     cmd = [str(bdir / "bin" / "interrogate"), "-D__cplusplus", "-oc", "o.cxx", "-od", "o.in", "-oh", "o.txt", "-module", "m", "-library", "l"] + be + ["g.h"]
                     rc, se = run_tool(cmd, str(d), e, prefix)
                     mcmd = [str(bdir / "bin" / "interrogate_module"), "-oc", "mod.cxx", "-module", "m", "-library", "l"] + (["-python-native"] if "-python-native" in be else ["-python"] if "-python" in be else ["-c"]) + ["o.in"]
-                    rc2, se2 = run_tool(mcmd, str(d), e, prefix) if rc == 0 else (None, "")
+                    rc2, se2 = run_tool(mcmd, str(d), e, [] if tag == "memcheck" else prefix) if rc == 0 else (None, "")
                     return {"rc": rc, "rc2": rc2, "oc": sha(d / "o.cxx"), "od": sha(d / "o.in"), "oh": sha(d / "o.txt"), "mod": sha(d / "mod.cxx"), "cmd": " ".join(cmd), "err": se[-800:]}
                 base = once("base", {}, [])
                 if base["rc"] != 0:
@@ -122,7 +134,10 @@ def run(ck):
                     r = once(tag, env, prefix)
                     ck.search_case("same-bytes-under-" + tag)
                     diff = [k for k in ("rc", "rc2", "oc", "od", "oh", "mod") if r[k] != base[k]]
-                    if diff:
+                    if tag == "memcheck" and r["rc"] == 97:
+                        ck.violation("uninitialised-value:%s" % " ".join(be), "interrogate %s: memcheck reports the use of a value that was never initialised; what is written then depends on what the memory held" % " ".join(be),
+                                     {"g.h": text, "cmd.txt": "valgrind -q --error-exitcode=97 " + base["cmd"] + "\n", "memcheck.txt": r["err"]}, r["err"])
+                    elif diff:
                         which = {"oc": "code file", "od": "database", "oh": "text dump", "mod": "interrogate_module output", "rc": "exit status", "rc2": "interrogate_module exit status"}
                         ck.violation("differs:%s:%s" % ("+".join(diff), tag), "%s of interrogate %s differ(s) between a plain run and a run under %s (SOURCE_DATE_EPOCH=5 in both)" % (", ".join(which[k] for k in diff), " ".join(be), tag),
                                      {"g.h": text, "cmd.txt": "SOURCE_DATE_EPOCH=5 " + base["cmd"] + "\n# vs\n" + " ".join("%s=%s" % kv for kv in env.items() if len(kv[1]) < 200) + " " + " ".join(prefix) + " " + base["cmd"] + "\n"},
